@@ -13,16 +13,18 @@ RUNS="${VERIF_FUZZ_RUNS:-400000}"       # executions per worker
 WORKERS="${VERIF_FUZZ_WORKERS:-8}"
 case "$PROP" in
   C01) SUBS="entry_points_raw entry_points histories";;
-  C02) SUBS="frame_raw frame_generated";;
+  C02) SUBS="frame_raw frame_generated frame_foreign";;
   C03) SUBS="differential_raw differential valid tail";;
-  C04) SUBS="roundtrip invalid";;
-  C05) SUBS="tag_arbitrary single overlong inner_overlong";;
-  C06) SUBS="locality_raw locality defrag";;
-  C07) SUBS="history splits refusals";;
-  C09) SUBS="messages records";;
-  C10) SUBS="frame_raw records hs_header";;
-  C13) SUBS="content_and_signature ec";;
+  C04) SUBS="roundtrip invalid equality clone_from";;
+  C05) SUBS="tag_arbitrary single overlong inner_overlong lists empty_only_in_list equality";;
+  C06) SUBS="locality_raw locality defrag locality_congruent";;
+  C07) SUBS="history splits refusals big_heartbeat";;
+  C08) SUBS="content sequences";;
+  C09) SUBS="messages records writers extensions";;
+  C10) SUBS="frame_raw records hs_header datagram";;
+  C13) SUBS="content_and_signature ec signed dh";;
   C14) SUBS="lists overlong";;
+  C15) SUBS="tls_parsed dtls_parsed constructed server";;
   C16) SUBS="many_raw tls_many dtls_many";;
   *) exit 0;;
 esac
